@@ -175,42 +175,41 @@ class MetaUnionRef(type):
         return info
 
     def _to_buffer(cls, buffer, offset, value, info=None):
-        if isinstance(value, cls):  # binary copy
-            buffer.update_from_xbuffer(
-                offset, value._buffer, value._offset, value._size
-            )
-        else:
-            if value is None:
+        if isinstance(value, cls):
+            # a reference object stands for its referent: its bytes cannot be
+            # copied, the stored offset is relative to the slot holding it
+            value = value.get()
+        if value is None:
+            xobj = None
+        elif isinstance(value, tuple):
+            if len(value) == 0:
                 xobj = None
-            elif isinstance(value, tuple):
-                if len(value) == 0:
-                    xobj = None
-                    typeid = None
-                elif len(value) == 1:  # must be XObject or None
-                    xobj = value[0]
-                    if xobj is not None:
-                        typ = xobj.__class__
-                        typeid = cls._typeid_from_type(typ)
-                        if xobj._buffer != buffer:
-                            xobj = typ(xobj, _buffer=buffer)
-                elif len(value) == 2:  # must be (str,dict)
-                    tname, data = value
-                    typ = cls._type_from_name(tname)
-                    typeid = cls._typeid_from_name(tname)
-                    xobj = typ(data, _buffer=buffer)
-            elif cls._is_member(value):
-                xobj = value
-                typ = xobj.__class__
-                typeid = cls._typeid_from_type(typ)
-                if xobj._buffer != buffer:
-                    xobj = typ(xobj, _buffer=buffer)
-            else:
-                raise ValueError(f"{value} not handled")
-            if xobj is None:
-                Int64._array_to_buffer(buffer, offset, NULLREF)
-            else:
-                ref = np.array([xobj._offset - offset, typeid])
-                Int64._array_to_buffer(buffer, offset, ref)
+                typeid = None
+            elif len(value) == 1:  # must be XObject or None
+                xobj = value[0]
+                if xobj is not None:
+                    typ = xobj.__class__
+                    typeid = cls._typeid_from_type(typ)
+                    if xobj._buffer != buffer:
+                        xobj = typ(xobj, _buffer=buffer)
+            elif len(value) == 2:  # must be (str,dict)
+                tname, data = value
+                typ = cls._type_from_name(tname)
+                typeid = cls._typeid_from_name(tname)
+                xobj = typ(data, _buffer=buffer)
+        elif cls._is_member(value):
+            xobj = value
+            typ = xobj.__class__
+            typeid = cls._typeid_from_type(typ)
+            if xobj._buffer != buffer:
+                xobj = typ(xobj, _buffer=buffer)
+        else:
+            raise ValueError(f"{value} not handled")
+        if xobj is None:
+            Int64._array_to_buffer(buffer, offset, NULLREF)
+        else:
+            ref = np.array([xobj._offset - offset, typeid])
+            Int64._array_to_buffer(buffer, offset, ref)
 
     def __getitem__(cls, shape):
         return Array.mk_arrayclass(cls, shape)
